@@ -275,6 +275,15 @@ pub fn run(ctx: &Ctx) -> i32 {
     let mut l: Vec<usize> = (0..=st_n).collect();
     let pool2 = lens::thin(&lens::pool(st_n, t.pick(1 << 17, 1 << 21)), t.pick(30, 200));
     l.extend(pool2.iter().map(|x| x.0));
+    // every octave above 2^16: the first prime of each class (Rader with 3-/11-/23-smooth p-1, Bluestein, safe prime)
+    // and the last prime of the octave -- the planners' inner-length choices for large primes are what blows scratch up
+    let oct_primes: Vec<usize> = lens::pool(1 << 16, t.pick(1 << 20, 1 << 22)).into_iter().filter(|x| x.1.starts_with("prime:")).map(|x| x.0).collect();
+    for p in &oct_primes {
+        if !l.contains(p) {
+            l.push(*p);
+        }
+    }
+    l.sort();
     l.reverse();
     let parts = par_map(&l, |_, &n| {
         let mut r = Report::new();
@@ -333,8 +342,9 @@ pub fn run(ctx: &Ctx) -> i32 {
     rep.sample(Json::Str("C05|part=structure|pk=avx|T=f32|dir=inv|n=2063".into()));
     rep.sample(Json::Str(format!("C05|part=plan_only|pk=sse|T=f64|n={}", pmax - 1)));
     rep.set("pool_lengths_ops", Json::Arr(pool.iter().map(|x| Json::Int(x.0 as i64)).collect()));
+    rep.set("octave_primes_structure", Json::Arr(oct_primes.iter().map(|x| Json::Int(*x as i64)).collect()));
     rep.rule = format!(
-        "(a) FftPlanner::<Cnt> (operation-counting element type) x {{fwd,inv}} x 4 entry points x every n in 2..={on} (+ pool lengths): +,-,* counted for one chunk on three inputs (zero, dense, special values) -- the three counts must be equal (input-independence decided, not assumed) and <= 64*n*log2(n); (b) planners {{auto,scalar,sse,avx}} x {{f32,f64}} x {{fwd,inv}} x every n in 0..={sn} (+ pool lengths): the construction event log (hook H4) contains no naive Dft of length > 32; (c) same range: the three advertised scratch lengths <= 12n+64; plan-only: scalar and SSE recipes for every n < {pm} contain no Dft node above 32; primed planners: one planner first asked for large lengths ({{16384,65536}}, {{12288,4096}}, {{10007,2048}}, {{32768}}) and then for every n in 2..={pn}: operation count (Cnt), naive nodes and scratch bounds again. Non-trivial: n >= 2.",
+        "(a) FftPlanner::<Cnt> (operation-counting element type) x {{fwd,inv}} x 4 entry points x every n in 2..={on} (+ pool lengths): +,-,* counted for one chunk on three inputs (zero, dense, special values) -- the three counts must be equal (input-independence decided, not assumed) and <= 64*n*log2(n); (b) planners {{auto,scalar,sse,avx}} x {{f32,f64}} x {{fwd,inv}} x every n in 0..={sn} (+ pool lengths, + per octave up to 2^20 (quick) / 2^22 (thorough) the first prime of every class and the last prime): the construction event log (hook H4) contains no naive Dft of length > 32; (c) same range: the three advertised scratch lengths <= 12n+64; plan-only: scalar and SSE recipes for every n < {pm} contain no Dft node above 32; primed planners: one planner first asked for large lengths ({{16384,65536}}, {{12288,4096}}, {{10007,2048}}, {{32768}}) and then for every n in 2..={pn}: operation count (Cnt), naive nodes and scratch bounds again. Non-trivial: n >= 2.",
         on = ops_n,
         sn = st_n,
         pm = pmax,
